@@ -15,12 +15,13 @@ for d in sorted(glob.glob(os.path.join(HERE, "seeded", "*", "meta.json")), key=l
     first = "" if fc is None else ("yes" if fc.get("own_check_fired") else ("other" if fc.get("fired") else "no"))
     desc = m["needs_to_manifest"]
     if m.get("round", 0) >= 6:
+        desc = re.sub(r"^(Kind|KIND|Change|CHANGE|change)\s*\d+\s*(\([^)]*\))?\s*[-.:]?\s*", "", desc)
         desc = re.sub(r"^(Kind|KIND|Change)\s*\d+[^.]*?\)\s*[.:]?\s*", "", desc)
         desc = re.sub(r"\|", "/", desc)[:130]
     else:
         desc = desc.split(":")[0][:120]
     rows.append("| %s | %s | %s | %s | %s | %s |" % (m["id"], desc, p if p in fired else "**missed**", ", ".join(rules), ", ".join(sorted(c for c in fired if c != p)), first))
-table = "| seed | what it changes | own check | rule(s) | also fires | caught at first contact (rounds 2-6) |\n|---|---|---|---|---|---|\n" + "\n".join(rows) + "\n\n%d seeds, %d reported by their own property's check on the current machinery.\n" % (n, own)
+table = "| seed | what it changes | own check | rule(s) | also fires | caught at first contact (rounds 2-8) |\n|---|---|---|---|---|---|\n" + "\n".join(rows) + "\n\n%d seeds, %d reported by their own property's check on the current machinery.\n" % (n, own)
 p = os.path.join(HERE, "DESIGN.md")
 s = open(p).read()
 s2 = re.sub(r"<!-- SEEDED-TABLE-BEGIN -->.*<!-- SEEDED-TABLE-END -->", "<!-- SEEDED-TABLE-BEGIN -->\n" + table + "<!-- SEEDED-TABLE-END -->", s, flags=re.S)
